@@ -158,6 +158,22 @@ NH_AROMATIC_SMILES = [
     ('OC(=O)C(N)Cc1c[nH]cn1', 'OC(=O)C(N)CC1=CNC=N1'),         # histidine
 ]
 _NHLIB = None
+# aromatic nitrogen WITHOUT hydrogen that carries a substituent outside the ring (written lower case `n`): descriptions in which
+# the exocyclic N-C bond is cut (the uncut spelling is rejected by pysmiles' kekulisation -- the package documents that class in
+# its error message -- so only the cut forms are generated).  (aromatic spelling, localised structure, atoms (n, substituent))
+NSUB_AROMATIC_SMILES = [
+    ('Cn1cccc1', 'CN1C=CC=C1', [(1, 0)]),                       # N-methylpyrrole
+    ('CCn1cccc1', 'CCN1C=CC=C1', [(2, 1)]),                     # N-ethylpyrrole
+    ('Cn1ccc2ccccc12', 'CN1C=Cc2ccccc12', [(1, 0)]),            # 1-methylindole
+]
+_NSUBLIB = None
+
+
+def nsub_library():
+    global _NSUBLIB
+    if _NSUBLIB is None:
+        _NSUBLIB = [(w, nh_aromatic(w, k), cut) for w, k, cut in NSUB_AROMATIC_SMILES]
+    return _NSUBLIB
 
 
 def nh_aromatic(written, localised):
